@@ -997,9 +997,9 @@ def main(repo, outdir):
         except Unsupported as e:
             open(path, "w").write("(* group %s: UNSUPPORTED: %s *)\n" % (g, str(e).replace("*)", "* )")))
             status[g] = "UNSUPPORTED: %s" % e
-        except (OSError, SyntaxError) as e:
-            open(path, "w").write("(* group %s: unreadable source *)\n" % g)
-            status[g] = "UNSUPPORTED: source unreadable: %s" % e
+        except Exception as e:  # fail closed: unreadable source or a shape the translator does not handle
+            open(path, "w").write("(* group %s: not translated *)\n" % g)
+            status[g] = "UNSUPPORTED: the source has a shape the translator does not handle (%s: %s)" % (type(e).__name__, str(e)[:200])
     print("STATUS " + json.dumps(status))
 
 
